@@ -532,6 +532,7 @@ class Recorder:
             filt = {}
             for st in fl.strategies:
                 filt[st.name] = {
+                    "livestatus": sorted(self.label_order(o) for o in b.strategy_orders(st, order_status=[OS.PENDING, OS.CANCELLING, OS.UPDATING, OS.REPLACING, OS.EXECUTABLE])),
                     "executable": sorted(self.label_order(o) for o in b.strategy_orders(st, order_status=[OS.EXECUTABLE])),
                     "complete": sorted(self.label_order(o) for o in b.strategy_orders(st, order_status=[OS.EXECUTION_COMPLETE])),
                     "matched": sorted(self.label_order(o) for o in b.strategy_orders(st, matched_only=True)),
